@@ -222,6 +222,8 @@ def run(ctx):
                      'and any open()/isfile()', 4)
     ctx.rule('R15c', 'no directory set means no file access; the strict flag is stored and '
                      'forwarded unchanged and defaults to True', 4)
+    ctx.rule('R15e', 'file contents are not remembered under a key that omits the directory, the strict '
+                     'flag or the name they were read with', 1)
     ctx.rule('R15d', 'who-may-open: calls that read files occur only in read_latex_file (and the '
                      'command-line __main__ modules)', 1)
 
@@ -365,6 +367,51 @@ def run(ctx):
                    'read_latex_file is not called with (self.tex_input_directory, '
                    'self.strict_input, <name>) bound to (%s, %s, %s)' % (p_dir, p_strict, p_fn),
                    construct='read_input_file: arguments of ' + short(c))
+    # R15e: a file's contents are not remembered across a change of directory / strictness
+    n_store = 0
+    for c in calls:
+        st = enclosing_stmt(c)
+        stored = None
+        if isinstance(st, ast.Assign):
+            for t in st.targets:
+                if isinstance(t, ast.Subscript):
+                    stored = (t, st)
+                elif isinstance(t, ast.Name):
+                    # local that is later stored into a container
+                    for s2 in iter_own(rif):
+                        if isinstance(s2, ast.Assign) and isinstance(s2.value, ast.Name) and \
+                                s2.value.id == t.id and isinstance(s2.targets[0], ast.Subscript):
+                            stored = (s2.targets[0], s2)
+        if stored is None:
+            continue
+        n_store += 1
+        tgt, sst = stored
+        keytexts = set()
+        stack = [tgt.slice]
+        seen_names = set()
+        while stack:
+            e = stack.pop()
+            for x in ast.walk(e):
+                if isinstance(x, ast.Attribute) and is_self_attr(x):
+                    keytexts.add(unparse(x))
+                if isinstance(x, ast.Name) and x.id not in seen_names:
+                    seen_names.add(x.id)
+                    keytexts.add(x.id)
+                    for s3 in iter_own(rif):
+                        if isinstance(s3, ast.Assign) and any(isinstance(t3, ast.Name) and t3.id == x.id
+                                                              for t3 in s3.targets):
+                            stack.append(s3.value)
+        need = [unparse(a_) for a_ in list(c.args) + [k.value for k in c.keywords]]
+        missing = [a_ for a_ in need if a_ not in keytexts]
+        ctx.decide('R15e', not missing, l2t, sst,
+                   'cached file contents are keyed by every argument of the read (%s)' % need,
+                   'the contents returned by read_latex_file(%s) are remembered in %s under a key that '
+                   'does not include %s: after set_tex_input_directory() selects another directory (or '
+                   'strictness) the text of a file outside the new directory is still returned'
+                   % (', '.join(need), short(tgt.value), missing),
+                   construct='read_input_file: cache key of ' + short(tgt, 50))
+    ctx.holds('R15e', l2t, rif, 'read_input_file stores the result of %d of its %d read(s) in a container'
+              % (n_store, len(calls)), construct='read_input_file: result caching scan', trivial=True)
     # strict flag storage
     init = meths.get('__init__')
     setd = meths.get('set_tex_input_directory')
